@@ -547,7 +547,8 @@ def get_vect_dim(observation: NumpyObsType, observation_space: spaces.Space) -> 
             else 1
         )
     else:
-        array_shape = observation.shape
+        # np.shape also accepts the Python numbers returned by unvectorised Discrete / scalar spaces
+        array_shape = np.shape(observation)
         return array_shape[0] if len(array_shape) > len(observation_space.shape) else 1
 
 
